@@ -122,6 +122,19 @@ def _job(args):
                             if x is None:
                                 continue
                             call = lambda: darr.asarray(path, x, chunklen=c)
+                        onto_existing = (j % 3 == 0)
+                        if onto_existing:
+                            # the path holds a valid array already and overwrite=True is given: the rejected
+                            # call must still leave everything as it was
+                            darr.asarray(path, np.arange(6, dtype='int16').reshape(3, 2), metadata={'keep': 1})
+                            if form in ('fill', 'fillfunc'):
+                                call = lambda: darr.create_array(path, shape=(max(n, 1),), dtype=dtb, fill=1, chunklen=c,
+                                                                 overwrite=True)
+                            else:
+                                x = unsupported_input(kind, form, n)
+                                call = lambda: darr.asarray(path, x, chunklen=c, overwrite=True)
+                            desc['onto_existing_array_with_overwrite'] = True
+                        before = disk.snapshot(parent)
                         try:
                             call()
                             got = 'ok'
@@ -131,10 +144,10 @@ def _job(args):
                             got = type(e).__name__
                         out['ran'] += 1
                         out['rejected'] += 1
-                        listing = sorted(os.listdir(parent))
-                        if got != 'TypeError' or listing:
-                            out['bad'].append({'case': desc, 'expected': 'TypeError and nothing created', 'got': got,
-                                               'created': listing})
+                        after = disk.snapshot(parent)
+                        if got != 'TypeError' or after != before:
+                            out['bad'].append({'case': desc, 'expected': 'TypeError and nothing created or changed', 'got': got,
+                                               'changed': disk.snapdiff(before, after)[:4]})
                         continue
                     # ---- supported inputs: build x and the NumPy reference
                     # keep the reference well defined: no casts of NaN/inf/out-of-range values to
@@ -188,6 +201,13 @@ def _job(args):
                     elif form == 'fill':
                         fv = src.reshape(-1)[0] if src.size else np.dtype(nt).type(3)
                         dtf = dta if dta is not None else dtype_of(nt, bo)
+                        if valset and np.dtype(dtf).kind == sk:
+                            # special fill values: -0.0, NaN with payload, infinities, extremes, 0
+                            sp = specials(nt) + [np.dtype(nt).type(0)]
+                            fv = sp[j % len(sp)]
+                            if j % 4 == 1 and sk == 'f':
+                                fv = -0.0            # a plain Python float, too
+                            desc['fill'] = repr(fv)
                         ref = np.full((n,) + tail, fv, dtype=dtf)
                         dta_eff = dtf
                         call = lambda: darr.create_array(path, shape=(n,) + tail if (tail or j % 2) else n,
